@@ -14,7 +14,8 @@ unknown / missing / duplicated key fails closed):
   *_defined_<i>                   the conjunction of `denominator ≠ 0` over every division the expression performs
                                   (numpy returns nan for 0/0; Lean's `x / 0 = 0` must not hide that)
 plus the cache key of `integrate` (`cache_key_fields()`, for C10), the attribute hand-off in `__init__`, and from
-pulse.py the facts "ConstantPulse = (identity, use_lookup=True)", "ConstantPulseNumerical = (identity, False)".
+pulse.py the facts "ConstantPulse = (identity, use_lookup=True)", "ConstantPulseNumerical = (identity, False)",
+"GaussianPulse = (its own parametrisation, False)": the lookup is only requested together with F = identity.
 Anything unexpected raises `pyexpr.Unsupported`.
 """
 import ast, os
@@ -385,15 +386,17 @@ def _extract_pulse_facts():
     stores = {ast.unparse(s.targets[0]): ast.unparse(s.value) for s in init.body if isinstance(s, ast.Assign) and len(s.targets) == 1}
     if stores.get("self.parametrization") != "parametrization" or stores.get("self.use_lookup") != "use_lookup":
         raise Unsupported(f"Pulse.__init__ does not store parametrization / use_lookup unchanged: {stores}")
-    for cls, lookup in (("ConstantPulse", "True"), ("ConstantPulseNumerical", "False")):
+    for cls, par, lookup in (("ConstantPulse", "identity", "True"), ("ConstantPulseNumerical", "identity", "False"),
+                             ("GaussianPulse", "self._gaussian_parametrization", "False")):
         fn = pyexpr.find_function(tree, "__init__", cls=cls)
-        calls = [s.value for s in fn.body if isinstance(s, ast.Expr) and isinstance(s.value, ast.Call)]
-        if len(calls) != 1 or not ast.unparse(calls[0].func).endswith(".__init__") or calls[0].args:
+        calls = [s.value for s in fn.body if isinstance(s, ast.Expr) and isinstance(s.value, ast.Call)
+                 and ast.unparse(s.value.func).endswith(".__init__")]
+        if len(calls) != 1 or calls[0].args:
             raise Unsupported(f"{cls}.__init__ has an unexpected shape")
         kw = {k.arg: ast.unparse(k.value) for k in calls[0].keywords}
-        if kw.get("parametrization") != "identity" or kw.get("use_lookup") != lookup:
-            raise Unsupported(f"{cls} is no longer (identity, use_lookup={lookup}): {kw}")
-        facts[cls] = {"parametrization": "identity", "use_lookup": lookup == "True"}
+        if kw.get("parametrization") != par or kw.get("use_lookup") != lookup:
+            raise Unsupported(f"{cls} is no longer ({par}, use_lookup={lookup}): {kw}")
+        facts[cls] = {"parametrization": par, "use_lookup": lookup == "True"}
     return facts
 
 
